@@ -636,4 +636,620 @@ theorem tokenize_pieces_full (ps : List Piece) (hg : ∀ x ∈ ps, GoodPiece x) 
       decode_escapeText]
     simp [emitG, hqi]
 
+
+/-! ### the attribute pieces of an element -/
+
+theorem natToStr_digits (n : Nat) : ∀ c ∈ natToStr n, 48 ≤ c ∧ c ≤ 57 := by
+  intro c hc
+  simp only [natToStr, List.mem_map] at hc
+  obtain ⟨ch, hch, rfl⟩ := hc
+  have h1 : ch ∈ Nat.toDigits 10 n := by
+    have : toString n = n.repr := rfl
+    rw [this, Nat.toList_repr] at hch
+    exact hch
+  have := Nat.isDigit_of_mem_toDigits (by decide) (by decide) h1
+  simp only [Char.isDigit, Bool.and_eq_true, decide_eq_true_eq, UInt32.le_iff_toNat_le] at this
+  exact this
+
+def hkVal (s e : Nat) : Str := natToStr s ++ [46] ++ natToStr e
+
+theorem hkVal_chars (s e : Nat) : ∀ c ∈ hkVal s e, c = 46 ∨ (48 ≤ c ∧ c ≤ 57) := by
+  intro c hc
+  simp only [hkVal, List.mem_append, List.mem_singleton] at hc
+  rcases hc with (h | h) | h
+  · exact .inr (natToStr_digits s c h)
+  · exact .inl h
+  · exact .inr (natToStr_digits e c h)
+
+theorem hkVal_no_quote (s e : Nat) : 34 ∉ hkVal s e := by
+  intro h; have := hkVal_chars s e 34 h; omega
+
+theorem hkVal_no_amp (s e : Nat) : 38 ∉ hkVal s e := by
+  intro h; have := hkVal_chars s e 38 h; omega
+
+def strPieces (attrs : List (Str × Str)) : List APiece :=
+  attrs.map (fun p => APiece.valued p.1 (escapeAttr p.2))
+
+def boolPieces : List (Str × Bool) → List APiece
+  | [] => []
+  | (n, true) :: r => .bare n :: boolPieces r
+  | (_, false) :: r => boolPieces r
+
+def hkPieces : Option (Nat × Nat) → List APiece
+  | none => []
+  | some (s, e) => [.valued (lit "data-hk") (hkVal s e)]
+
+def attrPieces (attrs : List (Str × Str)) (battrs : List (Str × Bool)) (hk : Option (Nat × Nat)) :
+    List APiece := strPieces attrs ++ boolPieces battrs ++ hkPieces hk
+
+theorem strPieces_render (attrs : List (Str × Str)) :
+    (strPieces attrs).flatMap APiece.render = renderAttrs attrs := by
+  induction attrs with
+  | nil => rfl
+  | cons a attrs ih =>
+    obtain ⟨n, v⟩ := a
+    simp only [strPieces] at ih
+    simp [strPieces, renderAttrs, APiece.render, lit_eqq, ih]
+
+theorem boolPieces_render (battrs : List (Str × Bool)) :
+    (boolPieces battrs).flatMap APiece.render = renderBoolAttrs battrs := by
+  induction battrs with
+  | nil => rfl
+  | cons a battrs ih =>
+    obtain ⟨n, b⟩ := a
+    cases b <;> simp [boolPieces, renderBoolAttrs, APiece.render, ih]
+
+def hkStr (hk : Option (Nat × Nat)) : Str :=
+  match hk with
+  | some (s, e) => lit " data-hk=\"" ++ natToStr s ++ [46] ++ natToStr e ++ [34]
+  | none => []
+
+theorem hkPieces_render (hk : Option (Nat × Nat)) :
+    (hkPieces hk).flatMap APiece.render = hkStr hk := by
+  cases hk with
+  | none => rfl
+  | some p =>
+    obtain ⟨s, e⟩ := p
+    simp [hkPieces, hkStr, APiece.render, lit_hk, hkVal]
+
+theorem attrPieces_render (attrs : List (Str × Str)) (battrs : List (Str × Bool)) (hk : Option (Nat × Nat)) :
+    (attrPieces attrs battrs hk).flatMap APiece.render
+      = renderAttrs attrs ++ renderBoolAttrs battrs ++ hkStr hk := by
+  simp [attrPieces, List.flatMap_append, strPieces_render, boolPieces_render, hkPieces_render]
+
+theorem strPieces_tok (attrs : List (Str × Str)) : (strPieces attrs).map APiece.tok = attrs := by
+  induction attrs with
+  | nil => rfl
+  | cons a attrs ih =>
+    simp only [strPieces] at ih
+    simp [strPieces, APiece.tok, decode_escapeAttr, ih]
+
+theorem boolPieces_tok (battrs : List (Str × Bool)) : (boolPieces battrs).map APiece.tok = trueBools battrs := by
+  induction battrs with
+  | nil => rfl
+  | cons a battrs ih =>
+    obtain ⟨n, b⟩ := a
+    cases b <;> simp [boolPieces, trueBools, APiece.tok, ih]
+
+theorem hkPieces_tok (hk : Option (Nat × Nat)) : (hkPieces hk).map APiece.tok = hkAttr hk := by
+  cases hk with
+  | none => rfl
+  | some p =>
+    obtain ⟨s, e⟩ := p
+    simp only [hkPieces, hkAttr, List.map_cons, List.map_nil, APiece.tok]
+    rw [decode_no_amp _ (hkVal_no_amp s e)]; rfl
+
+theorem attrPieces_tok (attrs : List (Str × Str)) (battrs : List (Str × Bool)) (hk : Option (Nat × Nat)) :
+    (attrPieces attrs battrs hk).map APiece.tok = attrs ++ trueBools battrs ++ hkAttr hk := by
+  simp [attrPieces, strPieces_tok, boolPieces_tok, hkPieces_tok]
+
+theorem boolPieces_ok (battrs : List (Str × Bool)) (h : ∀ p ∈ battrs, validName p.1 = true) :
+    ∀ a ∈ boolPieces battrs, a.ok := by
+  induction battrs with
+  | nil => intro a ha; simp [boolPieces] at ha
+  | cons x battrs ih =>
+    obtain ⟨n, b⟩ := x
+    have ih' := ih (fun p hp => h p (by simp [hp]))
+    cases b with
+    | false => simpa [boolPieces] using ih'
+    | true =>
+      intro a ha
+      simp only [boolPieces, List.mem_cons] at ha
+      rcases ha with rfl | ha
+      · exact h (n, true) (by simp)
+      · exact ih' a ha
+
+theorem attrPieces_ok (attrs : List (Str × Str)) (battrs : List (Str × Bool)) (hk : Option (Nat × Nat))
+    (h1 : ∀ p ∈ attrs, validName p.1 = true) (h2 : ∀ p ∈ battrs, validName p.1 = true) :
+    ∀ a ∈ attrPieces attrs battrs hk, a.ok := by
+  intro a ha
+  simp only [attrPieces, List.mem_append] at ha
+  rcases ha with (ha | ha) | ha
+  · simp only [strPieces, List.mem_map] at ha
+    obtain ⟨p, hp, rfl⟩ := ha
+    exact ⟨h1 p hp, escapeAttr_no_quote p.2⟩
+  · exact boolPieces_ok battrs h2 a ha
+  · cases hk with
+    | none => simp [hkPieces] at ha
+    | some p =>
+      obtain ⟨s, e⟩ := p
+      simp only [hkPieces, List.mem_singleton] at ha
+      subst ha
+      exact ⟨by decide, hkVal_no_quote s e⟩
+
+/-! ### pieces of a view -/
+
+def headSrc (tag : Str) (attrs : List (Str × Str)) (battrs : List (Str × Bool)) (hk : Option (Nat × Nat)) : Str :=
+  60 :: (tag ++ ((attrPieces attrs battrs hk).flatMap APiece.render ++ [62]))
+
+def headTok (tag : Str) (attrs : List (Str × Str)) (battrs : List (Str × Bool)) (hk : Option (Nat × Nat)) : Token :=
+  .startTag tag (attrs ++ trueBools battrs ++ hkAttr hk)
+
+def closeSrc (tag : Str) : Str := 60 :: 47 :: (tag ++ [62])
+
+def textPieces (t : Str) : List Piece := if t.isEmpty then [] else [(escapeText t, Token.text t)]
+
+mutual
+/-- source/token pieces of a node: the unmerged token stream with the rendered source of each token -/
+def pieces : SsrNode → List Piece
+  | .element tag attrs battrs children _ hk =>
+    if isVoid tag then [(headSrc tag attrs battrs hk, headTok tag attrs battrs hk)]
+    else (headSrc tag attrs battrs hk, headTok tag attrs battrs hk)
+      :: (piecesList children ++ [(closeSrc tag, Token.endTag tag)])
+  | .textDynamic t =>
+    (lit "<!--t-->", Token.comment (lit "t")) :: (textPieces t ++ [(lit "<!-->", Token.comment [])])
+  | .textStatic t => textPieces t
+  | .marker => [(lit "<!--/-->", Token.comment (lit "/"))]
+  | .dynamic v => piecesList v
+def piecesList : SsrList → List Piece
+  | .nil => []
+  | .cons n rest => pieces n ++ piecesList rest
+end
+
+theorem good_head (tag : Str) (attrs : List (Str × Str)) (battrs : List (Str × Bool)) (hk : Option (Nat × Nat))
+    (hv : validName tag = true)
+    (h1 : ∀ p ∈ attrs, validName p.1 = true) (h2 : ∀ p ∈ battrs, validName p.1 = true) :
+    GoodPiece (headSrc tag attrs battrs hk, headTok tag attrs battrs hk) := by
+  refine .inr ⟨rfl, ⟨_, rfl⟩, ?_⟩
+  intro fuel rest
+  have := tokenize_startTag fuel tag (attrPieces attrs battrs hk) rest hv (attrPieces_ok attrs battrs hk h1 h2)
+  rw [attrPieces_tok] at this
+  have e : headSrc tag attrs battrs hk ++ rest
+      = 60 :: (tag ++ ((attrPieces attrs battrs hk).flatMap APiece.render ++ 62 :: rest)) := by
+    simp [headSrc]
+  show tokenize (fuel + 1) (headSrc tag attrs battrs hk ++ rest) = _
+  rw [e]; exact this
+
+theorem good_close (tag : Str) (hv : validName tag = true) : GoodPiece (closeSrc tag, Token.endTag tag) := by
+  refine .inr ⟨rfl, ⟨_, rfl⟩, ?_⟩
+  intro fuel rest
+  have := tokenize_endTag fuel tag rest hv
+  simp only [closeSrc, List.cons_append, List.append_assoc, List.nil_append]
+  exact this
+
+theorem good_cmt_t : GoodPiece (lit "<!--t-->", Token.comment (lit "t")) :=
+  .inr ⟨rfl, ⟨_, lit_cmt_t⟩, fun fuel rest => tokenize_cmt_t fuel rest⟩
+theorem good_cmt_end : GoodPiece (lit "<!-->", Token.comment []) :=
+  .inr ⟨rfl, ⟨_, lit_cmt_end⟩, fun fuel rest => tokenize_cmt_end fuel rest⟩
+theorem good_marker : GoodPiece (lit "<!--/-->", Token.comment (lit "/")) :=
+  .inr ⟨rfl, ⟨_, lit_marker⟩, fun fuel rest => tokenize_marker fuel rest⟩
+
+theorem good_textPieces (t : Str) : ∀ x ∈ textPieces t, GoodPiece x := by
+  intro x hx
+  simp only [textPieces] at hx
+  split at hx
+  · simp at hx
+  · simp only [List.mem_singleton] at hx; subst hx; exact .inl ⟨t, rfl⟩
+
+theorem srcOf_textPieces (t : Str) : srcOf (textPieces t) = escapeText t := by
+  cases t with
+  | nil => rfl
+  | cons c t => simp [textPieces, srcOf]
+
+theorem WF_element (tag : Str) (attrs : List (Str × Str)) (battrs : List (Str × Bool)) (ch : SsrList)
+    (inner : Option Str) (hk : Option (Nat × Nat)) (h : WF (.element tag attrs battrs ch inner hk) = true) :
+    validName tag = true ∧ (∀ p ∈ attrs, validName p.1 = true) ∧ (∀ p ∈ battrs, validName p.1 = true)
+    ∧ inner = none ∧ (isVoid tag = true → ch = .nil) ∧ WFList ch = true := by
+  simp only [WF, Bool.and_eq_true, List.all_eq_true, Option.isNone_iff_eq_none, Bool.or_eq_true,
+    Bool.not_eq_true', decide_eq_true_eq] at h
+  obtain ⟨⟨⟨⟨⟨⟨a, b⟩, c⟩, _⟩, d⟩, e⟩, f⟩ := h
+  refine ⟨a, b, c, d, ?_, f⟩
+  intro hv
+  rcases e with e | e
+  · simp [hv] at e
+  · cases ch with
+    | nil => rfl
+    | cons _ _ => simp [SsrList.isEmpty] at e
+
+theorem render_element_void (tag : Str) (attrs : List (Str × Str)) (battrs : List (Str × Bool))
+    (hk : Option (Nat × Nat)) (hV : isVoid tag = true) :
+    render (.element tag attrs battrs .nil none hk) = .ok (headSrc tag attrs battrs hk) := by
+  rcases hk with _ | ⟨s, e⟩ <;>
+    simp [render, hV, SsrList.isEmpty, headSrc, attrPieces_render, hkStr]
+
+theorem render_element_nonvoid (tag : Str) (attrs : List (Str × Str)) (battrs : List (Str × Bool))
+    (ch : SsrList) (hk : Option (Nat × Nat)) (body : Str) (hV : ¬ isVoid tag = true)
+    (hb : renderList ch = .ok body) :
+    render (.element tag attrs battrs ch none hk)
+      = .ok (headSrc tag attrs battrs hk ++ (body ++ closeSrc tag)) := by
+  rcases hk with _ | ⟨s, e⟩ <;>
+    simp [render, hV, hb, headSrc, attrPieces_render, hkStr, closeSrc, lit_close]
+
+mutual
+theorem render_pieces : ∀ n : SsrNode, WF n = true →
+    render n = .ok (srcOf (pieces n)) ∧ ∀ x ∈ pieces n, GoodPiece x
+  | .element tag attrs battrs ch inner hk, h => by
+    obtain ⟨hv, h1, h2, hi, hvoid, hch⟩ := WF_element _ _ _ _ _ _ h
+    subst hi
+    have ih := renderList_pieces ch hch
+    by_cases hV : isVoid tag = true
+    · have := hvoid hV; subst this
+      rw [render_element_void _ _ _ _ hV]
+      simp only [pieces, hV, ↓reduceIte]
+      refine ⟨by simp [srcOf], ?_⟩
+      intro x hx
+      simp only [List.mem_singleton] at hx; subst hx
+      exact good_head _ _ _ _ hv h1 h2
+    · rw [render_element_nonvoid _ _ _ _ _ _ hV ih.1]
+      simp only [pieces, hV, Bool.false_eq_true, ↓reduceIte]
+      refine ⟨by simp [srcOf_cons, srcOf_append, srcOf_nil], ?_⟩
+      intro x hx
+      simp only [List.mem_cons, List.mem_append, List.not_mem_nil, or_false] at hx
+      rcases hx with rfl | hx | rfl
+      · exact good_head _ _ _ _ hv h1 h2
+      · exact ih.2 x hx
+      · exact good_close tag hv
+  | .textDynamic t, _ => by
+    simp only [render, pieces]
+    refine ⟨by simp [srcOf_cons, srcOf_append, srcOf_textPieces, srcOf_nil], ?_⟩
+    intro x hx
+    simp only [List.mem_cons, List.mem_append, List.not_mem_nil, or_false] at hx
+    rcases hx with rfl | hx | rfl
+    · exact good_cmt_t
+    · exact good_textPieces t x hx
+    · exact good_cmt_end
+  | .textStatic t, _ => by
+    simp only [render, pieces]
+    exact ⟨by rw [srcOf_textPieces], good_textPieces t⟩
+  | .marker, _ => by
+    simp only [render, pieces]
+    refine ⟨by simp [srcOf], ?_⟩
+    intro x hx
+    simp only [List.mem_singleton] at hx; subst hx
+    exact good_marker
+  | .dynamic v, h => by
+    have ih := renderList_pieces v (by simpa [WF] using h)
+    simp only [render, pieces]
+    exact ih
+theorem renderList_pieces : ∀ v : SsrList, WFList v = true →
+    renderList v = .ok (srcOf (piecesList v)) ∧ ∀ x ∈ piecesList v, GoodPiece x
+  | .nil, _ => by simp [renderList, piecesList, srcOf]
+  | .cons n rest, h => by
+    simp only [WFList, Bool.and_eq_true] at h
+    have ih1 := render_pieces n h.1
+    have ih2 := renderList_pieces rest h.2
+    simp only [renderList, piecesList, ih1.1, ih2.1, srcOf_append]
+    refine ⟨trivial, ?_⟩
+    intro x hx
+    rcases List.mem_append.1 hx with hx | hx
+    · exact ih1.2 x hx
+    · exact ih2.2 x hx
+end
+
+
+/-! ### merging text nodes = text runs -/
+
+def NoEmptyText (l : List HNode) : Prop := ∀ t, HNode.text t ∈ l → t ≠ []
+
+/-- emitted nodes plus the flushed pending text -/
+def finN (p : Str) (l : List HNode) : List HNode := (runsN p l).1 ++ emitN (runsN p l).2
+
+theorem runsN_text (p a : Str) (l : List HNode) : runsN p (.text a :: l) = runsN (p ++ a) l :=
+  runsG_cons_some _ _ _ _ _ a rfl
+theorem runsN_other (p : Str) (n : HNode) (l : List HNode) (h : n.getText = none) :
+    runsN p (n :: l) = (emitN p ++ n :: (runsN [] l).1, (runsN [] l).2) :=
+  runsG_cons_none _ _ _ _ _ h
+theorem runsN_append (xs ys : List HNode) (p : Str) :
+    runsN p (xs ++ ys) = ((runsN p xs).1 ++ (runsN (runsN p xs).2 ys).1, (runsN (runsN p xs).2 ys).2) :=
+  runsG_append _ _ _ _ _
+theorem runsT_text (p a : Str) (l : List Token) : runsT p (.text a :: l) = runsT (p ++ a) l :=
+  runsG_cons_some _ _ _ _ _ a rfl
+theorem runsT_other (p : Str) (n : Token) (l : List Token) (h : n.getText = none) :
+    runsT p (n :: l) = (emitT p ++ n :: (runsT [] l).1, (runsT [] l).2) :=
+  runsG_cons_none _ _ _ _ _ h
+theorem runsT_append (xs ys : List Token) (p : Str) :
+    runsT p (xs ++ ys) = ((runsT p xs).1 ++ (runsT (runsT p xs).2 ys).1, (runsT (runsT p xs).2 ys).2) :=
+  runsG_append _ _ _ _ _
+theorem runsN_nil (p : Str) : runsN p [] = ([], p) := runsG_nil _ _ _
+theorem runsT_nil (p : Str) : runsT p [] = ([], p) := runsG_nil _ _ _
+
+theorem finN_nil (p : Str) : finN p [] = emitN p := by simp [finN, runsN_nil]
+theorem finN_text (p a : Str) (l : List HNode) : finN p (.text a :: l) = finN (p ++ a) l := by
+  simp only [finN]; rw [runsN_text]
+theorem finN_other (p : Str) (n : HNode) (l : List HNode) (h : n.getText = none) :
+    finN p (n :: l) = emitN p ++ n :: finN [] l := by
+  simp only [finN]; rw [runsN_other _ _ _ h]; simp
+
+theorem mergeText_cons_other (n : HNode) (l : List HNode) (h : n.getText = none) :
+    mergeText (n :: l) = n :: mergeText l := by
+  rw [mergeText]
+  intro a b r' he
+  rw [he] at h; simp [HNode.getText] at h
+
+theorem mergeText_text_other (a : Str) (n : HNode) (l : List HNode) (h : n.getText = none) :
+    mergeText (.text a :: n :: l) = .text a :: mergeText (n :: l) := by
+  rw [mergeText]
+  intro a' b r' _ he
+  simp only [List.cons.injEq] at he
+  rw [he.1] at h; simp [HNode.getText] at h
+
+theorem mergeText_single (a : Str) : mergeText [.text a] = [.text a] := by
+  rw [mergeText]
+  · rw [mergeText]
+  · intro a' b r' _ he; simp at he
+
+theorem mergeText_eq_fin (l : List HNode) :
+    (NoEmptyText l → ∀ a, a ≠ [] → mergeText (.text a :: l) = finN a l)
+    ∧ (NoEmptyText l → mergeText l = finN [] l) := by
+  induction l with
+  | nil =>
+    refine ⟨fun _ a ha => ?_, fun _ => ?_⟩
+    · have : a.isEmpty = false := by cases a <;> simp_all
+      rw [finN_nil, mergeText_single]; simp [emitG, this]
+    · rw [finN_nil, mergeText]; rfl
+  | cons n l ih =>
+    have hne : NoEmptyText (n :: l) → NoEmptyText l := fun h t ht => h t (by simp [ht])
+    cases hn : n.getText with
+    | some b =>
+      have : n = .text b := by cases n <;> simp_all [HNode.getText]
+      subst this
+      refine ⟨fun h a ha => ?_, fun h => ?_⟩
+      · rw [mergeText, finN_text]
+        exact ih.1 (hne h) (a ++ b) (by simp [ha])
+      · rw [finN_text, List.nil_append]
+        exact ih.1 (hne h) b (h b (by simp))
+    | none =>
+      refine ⟨fun h a ha => ?_, fun h => ?_⟩
+      · have : a.isEmpty = false := by cases a <;> simp_all
+        rw [mergeText_text_other _ _ _ hn, mergeText_cons_other _ _ hn, finN_other _ _ _ hn, ih.2 (hne h)]
+        simp [emitG, this]
+      · rw [mergeText_cons_other _ _ hn, finN_other _ _ _ hn, ih.2 (hne h)]
+        simp [emitG]
+
+theorem mergeText_eq (l : List HNode) (h : NoEmptyText l) :
+    mergeText l = (runsN [] l).1 ++ emitN (runsN [] l).2 := (mergeText_eq_fin l).2 h
+
+mutual
+theorem flat_noEmpty : ∀ n : SsrNode, NoEmptyText (flat n)
+  | .element .., t, h => by simp [flat] at h
+  | .textDynamic s, t, h => by
+    simp only [flat] at h
+    split at h
+    · simp at h
+    · simp at h; subst h; cases t <;> simp_all
+  | .textStatic s, t, h => by
+    simp only [flat] at h
+    split at h
+    · simp at h
+    · simp at h; subst h; cases t <;> simp_all
+  | .marker, t, h => by simp [flat] at h
+  | .dynamic v, t, h => by
+    simp only [flat] at h
+    exact flatList_noEmpty v t h
+theorem flatList_noEmpty : ∀ v : SsrList, NoEmptyText (flatList v)
+  | .nil, t, h => by simp [flatList] at h
+  | .cons n rest, t, h => by
+    simp only [flatList, List.mem_append] at h
+    rcases h with h | h
+    · exact flat_noEmpty n t h
+    · exact flatList_noEmpty rest t h
+end
+
+/-! ### the tree builder -/
+
+abbrev BState := List HNode × List Frame
+
+def pushAll : List HNode → BState → BState
+  | [], s => s
+  | n :: ns, s => pushAll ns (pushNode n s.1 s.2)
+
+def bt (ts : List Token) (s : BState) : Option (List HNode) := buildTree ts s.1 s.2
+
+theorem pushAll_append (a b : List HNode) (s : BState) : pushAll (a ++ b) s = pushAll b (pushAll a s) := by
+  induction a generalizing s with
+  | nil => rfl
+  | cons n a ih => simp [pushAll, ih]
+
+theorem pushAll_frame (xs : List HNode) (top : List HNode) (f : Frame) (fs : List Frame) :
+    pushAll xs (top, f :: fs) = (top, { f with kids := xs.reverse ++ f.kids } :: fs) := by
+  induction xs generalizing f with
+  | nil => simp [pushAll]
+  | cons n xs ih => simp [pushAll, pushNode, ih]
+
+theorem pushAll_top (xs : List HNode) (top : List HNode) :
+    pushAll xs (top, []) = (xs.reverse ++ top, []) := by
+  induction xs generalizing top with
+  | nil => simp [pushAll]
+  | cons n xs ih => simp [pushAll, pushNode, ih]
+
+theorem bt_text (s : Str) (ts : List Token) (st : BState) :
+    bt (.text s :: ts) st = bt ts (pushAll [.text s] st) := by
+  simp [bt, buildTree, pushAll]
+
+theorem bt_comment (s : Str) (ts : List Token) (st : BState) :
+    bt (.comment s :: ts) st = bt ts (pushAll [.comment s] st) := by
+  simp [bt, buildTree, pushAll]
+
+theorem bt_emit (p : Str) (ts : List Token) (st : BState) :
+    bt (emitT p ++ ts) st = bt ts (pushAll (emitN p) st) := by
+  cases p with
+  | nil => simp [emitG, pushAll]
+  | cons c p => simp [emitG, bt_text]
+
+theorem bt_start_void (n : Str) (as : List (Str × Str)) (ts : List Token) (st : BState)
+    (h : isVoid n = true) :
+    bt (.startTag n as :: ts) st = bt ts (pushAll [.element n as []] st) := by
+  simp [bt, buildTree, pushAll, h]
+
+theorem bt_start (n : Str) (as : List (Str × Str)) (ts : List Token) (st : BState)
+    (h : ¬ isVoid n = true) :
+    bt (.startTag n as :: ts) st = bt ts (st.1, ⟨n, as, []⟩ :: st.2) := by
+  simp [bt, buildTree, h]
+
+theorem bt_end (n : Str) (as : List (Str × Str)) (kids : List HNode) (ts : List Token)
+    (top : List HNode) (fs : List Frame) :
+    bt (.endTag n :: ts) (top, ⟨n, as, kids⟩ :: fs)
+      = bt ts (pushAll [.element n as kids.reverse] (top, fs)) := by
+  simp [bt, buildTree, pushAll]
+
+theorem bt_nil (top : List HNode) : bt [] (top, []) = some top.reverse := by
+  simp [bt, buildTree]
+
+
+/-! ### tokens of a view vs. its expected nodes -/
+
+def toks (n : SsrNode) : List Token := (pieces n).map (·.2)
+def toksList (v : SsrList) : List Token := (piecesList v).map (·.2)
+def textToks (t : Str) : List Token := if t.isEmpty then [] else [.text t]
+def textNodes (t : Str) : List HNode := if t.isEmpty then [] else [.text t]
+
+theorem toksList_nil : toksList .nil = [] := rfl
+theorem toksList_cons (n : SsrNode) (r : SsrList) : toksList (.cons n r) = toks n ++ toksList r := by
+  simp [toksList, toks, piecesList]
+theorem textPieces_toks (t : Str) : (textPieces t).map (·.2) = textToks t := by
+  cases t <;> simp [textPieces, textToks]
+theorem toks_textStatic (t : Str) : toks (.textStatic t) = textToks t := by
+  simp [toks, pieces, textPieces_toks]
+theorem toks_textDynamic (t : Str) :
+    toks (.textDynamic t) = .comment (lit "t") :: (textToks t ++ [.comment []]) := by
+  simp [toks, pieces, textPieces_toks]
+theorem toks_marker : toks .marker = [.comment (lit "/")] := by simp [toks, pieces]
+theorem toks_dynamic (v : SsrList) : toks (.dynamic v) = toksList v := by simp [toks, toksList, pieces]
+theorem toks_element_void (tag : Str) (attrs : List (Str × Str)) (battrs : List (Str × Bool))
+    (ch : SsrList) (inner : Option Str) (hk : Option (Nat × Nat)) (h : isVoid tag = true) :
+    toks (.element tag attrs battrs ch inner hk) = [headTok tag attrs battrs hk] := by
+  simp [toks, pieces, h]
+theorem toks_element (tag : Str) (attrs : List (Str × Str)) (battrs : List (Str × Bool))
+    (ch : SsrList) (inner : Option Str) (hk : Option (Nat × Nat)) (h : ¬ isVoid tag = true) :
+    toks (.element tag attrs battrs ch inner hk)
+      = headTok tag attrs battrs hk :: (toksList ch ++ [.endTag tag]) := by
+  simp [toks, toksList, pieces, h]
+
+theorem flat_textStatic (t : Str) : flat (.textStatic t) = textNodes t := by simp [flat, textNodes]
+theorem flat_textDynamic (t : Str) :
+    flat (.textDynamic t) = .comment (lit "t") :: (textNodes t ++ [.comment []]) := by
+  simp [flat, textNodes]
+
+theorem runsT_textToks (p t : Str) : runsT p (textToks t) = ([], p ++ t) := by
+  cases t with
+  | nil => simp [textToks, runsT_nil]
+  | cons c t => simp [textToks, runsT_text, runsT_nil]
+
+theorem runsN_textNodes (p t : Str) : runsN p (textNodes t) = ([], p ++ t) := by
+  cases t with
+  | nil => simp [textNodes, runsN_nil]
+  | cons c t => simp [textNodes, runsN_text, runsN_nil]
+
+theorem runsT_single (p : Str) (x : Token) (h : x.getText = none) : runsT p [x] = (emitT p ++ [x], []) := by
+  rw [runsT_other _ _ _ h, runsT_nil]
+theorem runsN_single (p : Str) (x : HNode) (h : x.getText = none) : runsN p [x] = (emitN p ++ [x], []) := by
+  rw [runsN_other _ _ _ h, runsN_nil]
+
+theorem runsT_textDynamic (p t : Str) :
+    runsT p (.comment (lit "t") :: (textToks t ++ [.comment []]))
+      = (emitT p ++ .comment (lit "t") :: (emitT t ++ [.comment []]), []) := by
+  rw [runsT_other _ _ _ rfl, runsT_append, runsT_textToks, runsT_single _ _ rfl]
+  simp
+
+theorem runsN_textDynamic (p t : Str) :
+    runsN p (.comment (lit "t") :: (textNodes t ++ [.comment []]))
+      = (emitN p ++ .comment (lit "t") :: (emitN t ++ [.comment []]), []) := by
+  rw [runsN_other _ _ _ rfl, runsN_append, runsN_textNodes, runsN_single _ _ rfl]
+  simp
+
+theorem bt_append_emit_comment (p c : Str) (ts : List Token) (st : BState) :
+    bt (emitT p ++ .comment c :: ts) st = bt ts (pushAll (emitN p ++ [.comment c]) st) := by
+  rw [bt_emit, bt_comment, pushAll_append]
+
+mutual
+theorem tree_node : ∀ n : SsrNode, WF n = true → ∀ (p : Str) (ts : List Token) (st : BState),
+    (runsT p (toks n)).2 = (runsN p (flat n)).2 ∧
+    bt ((runsT p (toks n)).1 ++ ts) st = bt ts (pushAll (runsN p (flat n)).1 st)
+  | .element tag attrs battrs ch inner hk, h, p, ts, st => by
+    obtain ⟨hv, h1, h2, hi, hvoid, hch⟩ := WF_element _ _ _ _ _ _ h
+    by_cases hV : isVoid tag = true
+    · have := hvoid hV; subst this
+      rw [toks_element_void _ _ _ _ _ _ hV, runsT_single _ _ rfl]
+      simp only [flat, flatList]
+      rw [runsN_single _ _ rfl]
+      refine ⟨rfl, ?_⟩
+      simp only [List.append_assoc, List.cons_append, List.nil_append]
+      rw [bt_emit, headTok, bt_start_void _ _ _ _ hV, pushAll_append]
+      rw [mergeText]
+      simp only [List.append_assoc]
+    · have ih := tree_list ch hch [] (emitT (runsT [] (toksList ch)).2 ++ .endTag tag :: ts)
+      rw [toks_element _ _ _ _ _ _ hV, runsT_other _ _ _ rfl, runsT_append, runsT_single _ _ rfl]
+      simp only [flat]
+      rw [runsN_single _ _ rfl]
+      refine ⟨rfl, ?_⟩
+      simp only [List.append_assoc, List.cons_append, List.nil_append]
+      rw [bt_emit, headTok, bt_start _ _ _ _ hV, pushAll_append]
+      generalize pushAll (emitN p) st = st1
+      obtain ⟨top1, fs1⟩ := st1
+      rw [(ih _).2, (ih (top1, fs1)).1, bt_emit, ← pushAll_append, pushAll_frame, bt_end]
+      simp only [List.append_nil, List.reverse_reverse]
+      rw [mergeText_eq _ (flatList_noEmpty ch)]
+      simp only [List.append_assoc]
+  | .textDynamic t, _, p, ts, st => by
+    rw [toks_textDynamic, flat_textDynamic, runsT_textDynamic, runsN_textDynamic]
+    refine ⟨rfl, ?_⟩
+    simp only [List.append_assoc, List.cons_append, List.nil_append]
+    rw [bt_append_emit_comment, bt_append_emit_comment, ← pushAll_append]
+    simp
+  | .textStatic t, _, p, ts, st => by
+    rw [toks_textStatic, flat_textStatic, runsT_textToks, runsN_textNodes]
+    exact ⟨rfl, rfl⟩
+  | .marker, _, p, ts, st => by
+    rw [toks_marker]
+    simp only [flat]
+    rw [runsT_single _ _ rfl, runsN_single _ _ rfl]
+    refine ⟨rfl, ?_⟩
+    simp only [List.append_assoc, List.cons_append, List.nil_append]
+    rw [bt_append_emit_comment]
+  | .dynamic v, h, p, ts, st => by
+    have ih := tree_list v (by simpa [WF] using h) p ts st
+    rw [toks_dynamic]
+    simp only [flat]
+    exact ih
+theorem tree_list : ∀ v : SsrList, WFList v = true → ∀ (p : Str) (ts : List Token) (st : BState),
+    (runsT p (toksList v)).2 = (runsN p (flatList v)).2 ∧
+    bt ((runsT p (toksList v)).1 ++ ts) st = bt ts (pushAll (runsN p (flatList v)).1 st)
+  | .nil, _, p, ts, st => by
+    simp only [toksList_nil, flatList, runsT_nil, runsN_nil]
+    exact ⟨trivial, rfl⟩
+  | .cons n rest, h, p, ts, st => by
+    simp only [WFList, Bool.and_eq_true] at h
+    have ih1 := tree_node n h.1 p
+    have ih2 := tree_list rest h.2 (runsT p (toks n)).2
+    rw [toksList_cons, runsT_append]
+    simp only [flatList]
+    rw [runsN_append]
+    refine ⟨?_, ?_⟩
+    · simp only
+      rw [(ih2 ts st).1, (ih1 ts st).1]
+    · simp only [List.append_assoc]
+      rw [(ih1 _ st).2, (ih2 ts _).2, pushAll_append, (ih1 ts st).1]
+end
+
+/-- tree level, whole document -/
+theorem buildTree_toks (v : SsrList) (h : WFList v = true) :
+    buildTree ((runsT [] (toksList v)).1 ++ emitT (runsT [] (toksList v)).2) [] [] = some (expected v) := by
+  have := tree_list v h [] (emitT (runsT [] (toksList v)).2 ++ []) ([], [])
+  have e : buildTree ((runsT [] (toksList v)).1 ++ emitT (runsT [] (toksList v)).2) [] []
+      = bt ((runsT [] (toksList v)).1 ++ (emitT (runsT [] (toksList v)).2 ++ [])) ([], []) := by
+    simp [bt]
+  rw [e, this.2, this.1, bt_emit, ← pushAll_append, pushAll_top, bt_nil, expected,
+    mergeText_eq _ (flatList_noEmpty v)]
+  simp
+
 end SycVerif.Html
